@@ -1,25 +1,30 @@
 use crate::core::*;
 
-pub mod c07;
-pub mod c12;
-
-pub fn dispatch(ctx: &mut Ctx) -> Result<(), Violation> {
-    match ctx.id.as_str() {
-        "C07" => c07::run(ctx),
-        "C12" => c12::run(ctx),
-        other => {
-            eprintln!("unknown property {other}");
-            std::process::exit(2);
+macro_rules! props {
+    ($($id:literal => $m:ident),* $(,)?) => {
+        $(pub mod $m;)*
+        pub fn dispatch(ctx: &mut Ctx) -> Result<(), Violation> {
+            match ctx.id.as_str() {
+                $($id => $m::run(ctx),)*
+                other => {
+                    eprintln!("unknown property {other}");
+                    std::process::exit(2);
+                }
+            }
         }
-    }
+        pub fn replay(v: &Violation) -> Result<(), String> {
+            match v.property.as_str() {
+                $($id => $m::replay(v),)*
+                other => Err(format!("no replay for {other}")),
+            }
+        }
+    };
 }
 
-pub fn replay(v: &Violation) -> Result<(), String> {
-    match v.property.as_str() {
-        "C07" => c07::replay(v),
-        "C12" => c12::replay(v),
-        other => Err(format!("no replay for {other}")),
-    }
+props! {
+    "C07" => c07,
+    "C08" => c08,
+    "C12" => c12,
 }
 
 pub fn worker(_args: &[String]) -> i32 {
